@@ -86,7 +86,7 @@ FAN_LABELS = ["cpu_fan", "Processor Fan", "fan1", "Left side", "Exhaust"]
 ZONE_TYPES = ["acpitz", "x86_pkg_temp", "INT3400 Thermal", "iwlwifi_1", "pch_skylake", "cpu-thermal", "B0D4"]
 TRIP_TYPES = ["critical", "high", "passive", "active", "hot"]
 NONNUM = ["N/A\n", "\n", "", "unknown\n", "0x1f\n", "85C\n"]
-BAD_INPUT = ["missing", "eacces", "eio", "enodata", "isdir"]
+BAD_INPUT = ["missing", "eacces", "eio", "enodata", "isdir", "empty", "garbage"]     # the last two: readable, but no reading in it
 STATUSES = ["Discharging", "Charging", "Full", "Not charging", "Unknown"]
 
 
@@ -281,6 +281,8 @@ def gen_freq(rng, variant):
         case["cpus"].append(d)
     if variant == "cpuinfo" and rng.random() < 0.2:
         case["mhz"] = False          # ARM-like: nothing exposed at all
+    elif variant == "cpuinfo" and rng.random() < 0.15:
+        case["s390"] = True          # s390x prints "cpu MHz dynamic" (current) and "cpu MHz static" (nominal) per CPU
     if variant == "policy" and n >= 4 and not case["offline"] and rng.random() < 0.35:
         # CPUs share a frequency policy (one per cluster / package): fewer policy directories than "cpu MHz" lines, and the
         # clusters run at different speeds
@@ -319,7 +321,7 @@ def gen_cpu(rng):
     case = dict(dom="cpu", sockets=sockets, cores=cores, threads=threads,
                 sib_style=rng.choice(["adjacent", "split"]), offline=[],
                 topo=rng.choices(["core_cpus", "thread_siblings", "both", "none"], [30, 25, 20, 25])[0],
-                cpuinfo=rng.choices(["x86", "arm", "sparc"], [60, 25, 15])[0],
+                cpuinfo=rng.choices(["x86", "arm", "sparc", "arm_old"], [55, 20, 15, 10])[0],
                 sysconf_fails=rng.random() < 0.7,
                 btime=rng.choice([0, 1, 1_700_000_000, 2**31 - 1, 2**31, 2**32 + 5, rng.randrange(0, 2**33)]),
                 ctxt=g_big(rng), intr=g_big(rng), softirq=g_big(rng),
@@ -380,6 +382,9 @@ class Tree:
             return
         if st == "isdir":
             self.mkdir(area, rel)
+            return
+        if st in ("empty", "garbage"):
+            self.w(area, rel, "" if st == "empty" else "N/A\n")
             return
         self.w(area, rel, text)
         if st != "ok":
@@ -618,7 +623,12 @@ def render_freq(t, case):
         t.mkdir("cpu", "cpufreq")
     if case["mhz"]:
         g_ = case.get("shared") or 1
-        ci = cpuinfo_x86(online, mhz={c: case["cpus"][c - c % g_]["cur"] for c in online})
+        if case.get("s390"):
+            ci = "vendor_id       : IBM/S390\n# processors    : %d\nbogomips per cpu: 3241.00\n\n" % len(online) + "".join(
+                f"cpu number      : {c}\nphysical id     : 0\ncore id         : {c}\ncpu MHz dynamic : {case['cpus'][c]['cur'] // 1000}\n"
+                f"cpu MHz static  : 5208\n\n" for c in online)
+        else:
+            ci = cpuinfo_x86(online, mhz={c: case["cpus"][c - c % g_]["cur"] for c in online})
     else:
         ci = cpuinfo_arm(online)
     return {"cpuinfo": ci, "stat": render_stat(online)}
@@ -669,6 +679,9 @@ def render_cpu(t, case):
                          coreid={c: core_of[c] % case["cores"] for c in online})
     elif case["cpuinfo"] == "arm":
         ci = cpuinfo_arm(online)
+    elif case["cpuinfo"] == "arm_old":
+        # ARM kernels before 3.8: one model line "Processor : ..." in front of the per-CPU "processor : N" blocks
+        ci = "Processor\t: ARMv7 Processor rev 10 (v7l)\n" + cpuinfo_arm(online) + "Hardware\t: Freescale i.MX 6Quad\n"
     else:
         ci = cpuinfo_sparc(online)
     return {"cpuinfo": ci, "stat": render_stat(online, case["btime"], case["ctxt"], case["intr"], case["softirq"],
@@ -1019,6 +1032,8 @@ def exp_freq(case):
     if case["variant"] == "cpuinfo":
         if not case["mhz"]:
             return [[]]
+        if case.get("s390"):
+            return [[(Fraction(case["cpus"][c]["cur"] // 1000), None, None) for c in online]]
         return [[(Fraction(case["cpus"][c]["cur"], 1000), None, None) for c in online]]
 
     def ent(c):
@@ -1072,7 +1087,7 @@ def compare_freq(got_list, got_mean, case, ctx):
         want = [tuple(None if x is None else float(x) for x in e) for e in cand]
         gots = [tuple(g) if isinstance(g, tuple) else g for g in got_list]
         if kind == "len":
-            viols.append(("cpu_freq_percpu_length_wrong",
+            viols.append(("cpu_freq_percpu_length_wrong" + (":s390x_static_mhz_line" if case.get("s390") else ""),
                           f"got {len(got_list)} entries want {sorted({len(c) for c in cands})} {ctx}"))
         elif kind == "current":
             g, e = got_list[i], cand[i]
